@@ -8,13 +8,14 @@ VERIF = os.path.dirname(os.path.dirname(os.path.abspath(__file__)))
 
 # pid -> (technique, level text, level_note, design_ref)
 CLAIMED = {
-    'C02': ('Lean 4 theorems (model = Wolff spec, piecewise, all inputs) + model/impl correspondence + spec evaluated on impl outputs',
-            'Proof: the code\'s window loops, the four slices of _compute_drho, the tau_exp loop and the expand-shift-dot '
-            'autocorrelation sum are proved equal to the by-configuration-number Wolff specification for every input size; '
-            'the executable model is tied to pyerrors by a differential check at 1e-8 and the specification itself is evaluated '
-            'on the implementation\'s outputs for every generated case.',
-            'Lean kernel; axioms propext/Classical.choice/Quot.sound; FFT path and libm by contract (measured each run); '
-            'IEEE rounding absorbed by tolerance; generator-bounded correspondence.', '5 C02'),
+    'C02': ('Lean 4 theorem c02_formulas: the executable model of gamma_method EQUALS the by-configuration-number Wolff specification for all inputs (assembled from: Gamma table = pair sums / pair counts, window loop, the four slices of _compute_drho, tau_exp loop, cumulative tau_int with clamp, its error) + model/impl correspondence + spec evaluated on impl outputs',
+            'Proof: c02_formulas - for every observable whose ensembles have well-formed chains with a common spacing (any number of ensembles, replicas, covariance inputs; contiguous, '
+            'strided, gapped, irregular layouts; any S, tau_exp, N_sigma) the whole result record of the model of the code equals the specification written by configuration number '
+            'from the papers: Gamma(t) as pair sums over configurations t*gap apart divided by the pair count, rho, tau_int(W) = 1/2 + sum rho (clamped), its error, '
+            'delta rho from the four Python slices, the automatic window as first negative criterion, the tau_exp stopping rule and tail, the S = 0 branch, the bias '
+            'correction, the errors and the total with the covariance-input terms. The executable model is tied to pyerrors by a differential check at 1e-8 '
+            '(fft on and off) and the specification itself is evaluated on the implementation\'s outputs for every generated case.',
+            'Lean kernel; axioms propext/Classical.choice/Quot.sound; the theorem is over the reals (IEEE rounding absorbed by the tolerance of the correspondence); FFT path and libm by contract (measured each run); chains of a single configuration (w_max = 0) are outside the theorem (pyerrors raises there); generator-bounded correspondence.', '5 C02'),
     'C03': ('Lean 4 theorems (affine relabelling / renaming invariance of the model, call-history refinement, parameter precedence, tau>=1/2; attribute frames regenerated from the AST and decided) + invariances evaluated on the implementation',
             'Proof: the model of gamma_method is proved invariant under i -> a*i+b and replica renaming for every input, the '
             'history state machine is proved to depend only on the last analysis and the parameters effective then (argument over '
